@@ -18,7 +18,7 @@ LEVEL_TEXT = ("Lean theorems about the index state machine (Phil.Index), generic
               "under the kernel's idempotence law (C07). The machine instantiated with the Fetch model is tied to /repo by a "
               "correspondence run over random histories (working text, cache flags, stack depth and handed-out object after "
               "every operation); the oracle evaluates the four clauses of the statement on the implementation after every step.")
-LEVEL_NOTE = ("Masters are fully typed (the index requires it) and have no multiples nested in multiple scopes (C07 finding D8). "
+LEVEL_NOTE = ("Masters are fully typed (the index requires it); every fourth has multiples nested in multiple scopes. "
               "The style/menu half of the index is not modelled.")
 TECHNIQUE = "Lean 4 invariant proof over operation histories of an abstract state machine (refinement) + differential correspondence"
 RULE = ("fully typed masters x histories of 1-25 operations over {update(text), merge_phil(string), update_from_python, "
@@ -209,7 +209,7 @@ def run(ctx):
         if ctx.time_left() < 30:
             ctx.notes.append("stopped early on time budget")
             break
-        tree = mgen.MasterGen(rng, depth=rng.choice([0, 1, 2]), nested_multiples=False, disabled=False, types=types,
+        tree = mgen.MasterGen(rng, depth=rng.choice([0, 1, 2]), nested_multiples=(i % 4 == 3), disabled=False, types=types,
                               further=rng.random() < 0.3).tree()
         mt = mgen.render_master(tree)
         m = freephil.parse(input_string=mt)
